@@ -52,11 +52,27 @@ type Entry = (&'static str, fn(&mut TraceRng, u64) -> String);
 
 type BitInd = EcIndividual<Vec<bool>, TestResults<Score<i64>>>;
 
+/// Size derived from the fixture value: mostly small, regularly around word / block
+/// boundaries (32, 64, 128, 256, 1024) and beyond, because generators and operators may switch
+/// strategy with the size (word-wise unpacking, chunking, fast paths) and a hidden source of
+/// randomness may sit in only one of the paths.
+fn sz(f: u64, salt: u64) -> usize {
+    let h = mix(f, salt);
+    let r = (h >> 8) as usize;
+    match h % 8 {
+        0..=3 => r % 25,
+        4 | 5 => [31, 32, 33, 63, 64, 65, 100, 127, 128, 129][r % 10],
+        6 => 130 + r % 400,
+        _ => [255, 256, 257, 1000, 1024, 1025, 2049][r % 7],
+    }
+}
+
 fn bit_population(fixture: u64) -> Vec<BitInd> {
     let mut g = Xo::new(fixture);
-    (0..6)
+    let len = sz(fixture, 21);
+    (0..2 + sz(fixture, 20) % 80)
         .map(|_| {
-            let bits: Vec<bool> = (0..10).map(|_| g.chance(1, 2)).collect();
+            let bits: Vec<bool> = (0..len).map(|_| g.chance(1, 2)).collect();
             let scores: Vec<i64> = (0..3).map(|_| g.range(0, 3)).collect();
             EcIndividual::new(bits, scores.into_iter().collect())
         })
@@ -79,27 +95,27 @@ fn instr_pool() -> Vec<PushInstruction> {
 /// `fixture` seeds the *inputs* (populations, genomes), rebuilt on every run.
 fn registry() -> Vec<Entry> {
     vec![
-        ("selector Best", |r, f| { let p = gen_population(&mut Xo::new(f), 7, 3); format!("{:?}", Best.select(&p, r).map(|i| i.genome)) }),
-        ("selector Worst", |r, f| { let p = gen_population(&mut Xo::new(f), 7, 3); format!("{:?}", Worst.select(&p, r).map(|i| i.genome)) }),
-        ("selector Random", |r, f| { let p = gen_population(&mut Xo::new(f), 7, 3); format!("{:?}", Random.select(&p, r).map(|i| i.genome)) }),
-        ("selector Tournament(3)", |r, f| { let p = gen_population(&mut Xo::new(f), 7, 3); format!("{:?}", Tournament::of_size::<3>().select(&p, r).map(|i| i.genome)) }),
-        ("selector Lexicase(3)", |r, f| { let p = gen_population(&mut Xo::new(f), 7, 3); format!("{:?}", Lexicase::new(3).select(&p, r).map(|i| i.genome).map_err(|e| e.to_string())) }),
+        ("selector Best", |r, f| { let p = gen_population(&mut Xo::new(f), sz(f, 1), 3); format!("{:?}", Best.select(&p, r).map(|i| i.genome)) }),
+        ("selector Worst", |r, f| { let p = gen_population(&mut Xo::new(f), sz(f, 1), 3); format!("{:?}", Worst.select(&p, r).map(|i| i.genome)) }),
+        ("selector Random", |r, f| { let p = gen_population(&mut Xo::new(f), sz(f, 1), 3); format!("{:?}", Random.select(&p, r).map(|i| i.genome)) }),
+        ("selector Tournament(3)", |r, f| { let p = gen_population(&mut Xo::new(f), sz(f, 1), 3); format!("{:?}", Tournament::of_size::<3>().select(&p, r).map(|i| i.genome)) }),
+        ("selector Lexicase(3)", |r, f| { let p = gen_population(&mut Xo::new(f), sz(f, 1), 3); format!("{:?}", Lexicase::new(3).select(&p, r).map(|i| i.genome).map_err(|e| e.to_string())) }),
         ("selector weighted chain", |r, f| {
-            let p = gen_population(&mut Xo::new(f), 7, 3);
+            let p = gen_population(&mut Xo::new(f), sz(f, 1), 3);
             let s = build(Shape::Left(4), &[LeafKind::Best, LeafKind::Random, LeafKind::Tournament(2), LeafKind::Lexicase(3)], &[1, 2, 3, 4]).unwrap();
             let o = format!("{:?}", s.sel(&p, r));
             take_leaf_log();
             o
         }),
         ("selector weighted tree", |r, f| {
-            let p = gen_population(&mut Xo::new(f), 7, 3);
+            let p = gen_population(&mut Xo::new(f), sz(f, 1), 3);
             let s = build(Shape::Balanced4, &[LeafKind::Worst, LeafKind::Random, LeafKind::Tournament(3), LeafKind::Random], &[4, 0, 3, 1]).unwrap();
             let o = format!("{:?}", s.sel(&p, r));
             take_leaf_log();
             o
         }),
         ("selector DynWeighted", |r, f| {
-            let p = gen_population(&mut Xo::new(f), 7, 3);
+            let p = gen_population(&mut Xo::new(f), sz(f, 1), 3);
             let s = build(Shape::Dyn(3), &[LeafKind::Random, LeafKind::Tournament(2), LeafKind::Lexicase(2)], &[1, 1, 2]).unwrap();
             let o = format!("{:?}", s.sel(&p, r));
             take_leaf_log();
@@ -130,41 +146,41 @@ fn registry() -> Vec<Entry> {
             let gs = GenomeScorer::new(maker, FnScorer(|g: &Vec<bool>| g.iter().filter(|b| **b).count()));
             format!("{:?}", gs.apply(&p, r).map(|i| (i.genome, i.test_results)).map_err(|e| e.to_string()))
         }),
-        ("mutator WithRate Vec<bool>", |r, f| { let g: Vec<bool> = (0..20).map(|i| (f >> i) & 1 == 1).collect(); format!("{:?}", WithRate::new(0.4).mutate(g, r)) }),
-        ("mutator WithRate Bitstring", |r, f| { let g: Vec<bool> = (0..20).map(|i| (f >> i) & 1 == 1).collect(); format!("{:?}", WithRate::new(0.4).mutate(Bitstring { bits: g }, r)) }),
-        ("mutator WithOneOverLength Vec<bool>", |r, f| { let g: Vec<bool> = (0..20).map(|i| (f >> i) & 1 == 1).collect(); format!("{:?}", WithOneOverLength.mutate(g, r).map_err(|e| e.to_string())) }),
-        ("mutator WithOneOverLength Bitstring", |r, f| { let g: Vec<bool> = (0..20).map(|i| (f >> i) & 1 == 1).collect(); format!("{:?}", WithOneOverLength.mutate(Bitstring { bits: g }, r).map_err(|e| e.to_string())) }),
+        ("mutator WithRate Vec<bool>", |r, f| { let g: Vec<bool> = (0..sz(f, 3)).map(|i| (f >> (i % 64)) & 1 == 1).collect(); format!("{:?}", WithRate::new(0.4).mutate(g, r)) }),
+        ("mutator WithRate Bitstring", |r, f| { let g: Vec<bool> = (0..sz(f, 3)).map(|i| (f >> (i % 64)) & 1 == 1).collect(); format!("{:?}", WithRate::new(0.4).mutate(Bitstring { bits: g }, r)) }),
+        ("mutator WithOneOverLength Vec<bool>", |r, f| { let g: Vec<bool> = (0..sz(f, 3)).map(|i| (f >> (i % 64)) & 1 == 1).collect(); format!("{:?}", WithOneOverLength.mutate(g, r).map_err(|e| e.to_string())) }),
+        ("mutator WithOneOverLength Bitstring", |r, f| { let g: Vec<bool> = (0..sz(f, 3)).map(|i| (f >> (i % 64)) & 1 == 1).collect(); format!("{:?}", WithOneOverLength.mutate(Bitstring { bits: g }, r).map_err(|e| e.to_string())) }),
         ("mutator Umad Vector", |r, f| {
-            let g: Vector<u8> = (0..12).map(|i| ((f >> i) & 7) as u8).collect();
+            let g: Vector<u8> = (0..sz(f, 5)).map(|i| ((f >> (i % 60)) & 7) as u8).collect();
             format!("{:?}", Umad::new(0.3, 0.2, StandardUniform).mutate(g, r))
         }),
         ("mutator Umad Plushy with GeneGenerator", |r, f| {
             let gg = instr_pool().into_distribution().unwrap().into_gene_generator();
-            let parent: Plushy = (&gg).into_collection_generator(10).sample(&mut TraceRng::new(f));
+            let parent: Plushy = (&gg).into_collection_generator(sz(f, 6)).sample(&mut TraceRng::new(f));
             format!("{}", Umad::new(0.3, 0.2, &gg).mutate(parent, r).unwrap())
         }),
         ("mutator Umad empty genome", |r, _| { let g: Vector<u8> = Vec::new().into_iter().collect(); format!("{:?}", Umad::new_with_empty_rate(0.3, 0.5, 0.2, StandardUniform).mutate(g, r)) }),
-        ("recombinator TwoPointXo [Vec;2]", |r, f| { let a: Vec<u8> = (0..12).map(|i| ((f >> i) & 3) as u8).collect(); let b: Vec<u8> = a.iter().map(|x| x + 10).collect(); format!("{:?}", TwoPointXo.recombine([a, b], r).map_err(|e| e.to_string())) }),
-        ("recombinator TwoPointXo (Vec,Vec)", |r, f| { let a: Vec<u8> = (0..12).map(|i| ((f >> i) & 3) as u8).collect(); let b: Vec<u8> = a.iter().map(|x| x + 10).collect(); format!("{:?}", TwoPointXo.recombine((a, b), r).map_err(|e| e.to_string())) }),
-        ("recombinator TwoPointXo [Bitstring;2]", |r, f| { let a = Bitstring { bits: (0..12).map(|i| (f >> i) & 1 == 1).collect() }; let b = Bitstring { bits: a.bits.iter().map(|x| !x).collect() }; format!("{:?}", TwoPointXo.recombine([a, b], r).map_err(|e| e.to_string())) }),
-        ("recombinator TwoPointXo (Bitstring,Bitstring)", |r, f| { let a = Bitstring { bits: (0..12).map(|i| (f >> i) & 1 == 1).collect() }; let b = Bitstring { bits: a.bits.iter().map(|x| !x).collect() }; format!("{:?}", TwoPointXo.recombine((a, b), r).map_err(|e| e.to_string())) }),
-        ("recombinator UniformXo [Vec;2]", |r, f| { let a: Vec<u8> = (0..12).map(|i| ((f >> i) & 3) as u8).collect(); let b: Vec<u8> = a.iter().map(|x| x + 10).collect(); format!("{:?}", UniformXo.recombine([a, b], r).map_err(|e| e.to_string())) }),
-        ("recombinator UniformXo (Vec,Vec)", |r, f| { let a: Vec<u8> = (0..12).map(|i| ((f >> i) & 3) as u8).collect(); let b: Vec<u8> = a.iter().map(|x| x + 10).collect(); format!("{:?}", UniformXo.recombine((a, b), r).map_err(|e| e.to_string())) }),
-        ("recombinator UniformXo [Bitstring;2]", |r, f| { let a = Bitstring { bits: (0..12).map(|i| (f >> i) & 1 == 1).collect() }; let b = Bitstring { bits: a.bits.iter().map(|x| !x).collect() }; format!("{:?}", UniformXo.recombine([a, b], r).map_err(|e| e.to_string())) }),
-        ("recombinator UniformXo (Bitstring,Bitstring)", |r, f| { let a = Bitstring { bits: (0..12).map(|i| (f >> i) & 1 == 1).collect() }; let b = Bitstring { bits: a.bits.iter().map(|x| !x).collect() }; format!("{:?}", UniformXo.recombine((a, b), r).map_err(|e| e.to_string())) }),
-        ("generator Bitstring::random", |r, _| format!("{}", Bitstring::random(24, r))),
-        ("generator Bitstring::random_with_probability", |r, _| format!("{}", Bitstring::random_with_probability(24, 0.3, r))),
-        ("generator BoolGenerator collection", |r, _| { let b: Bitstring = BoolGenerator::new(0.7).into_collection_generator(24).sample(r); format!("{b}") }),
-        ("generator collection Vec<u32>", |r, _| { let v: Vec<u32> = StandardUniform.into_collection_generator(9).sample(r); format!("{v:?}") }),
-        ("generator OneOfCloning", |r, _| { let d = vec![3u8, 1, 4, 1, 5, 9, 2, 6].into_distribution().unwrap(); format!("{:?}", (0..8).map(|_| d.sample(r)).collect::<Vec<u8>>()) }),
-        ("generator ChooseCloning", |r, _| { let v = vec![3u8, 1, 4, 1, 5, 9, 2, 6]; let d = ToDistribution::<u8>::to_distribution(&v).unwrap(); format!("{:?}", (0..8).map(|_| d.sample(r)).collect::<Vec<u8>>()) }),
-        ("generator Choose (borrowing)", |r, _| { let v = vec![3u8, 1, 4, 1, 5, 9, 2, 6]; let d = ToDistribution::<&u8>::to_distribution(&v).unwrap(); format!("{:?}", (0..8).map(|_| *d.sample(r)).collect::<Vec<u8>>()) }),
+        ("recombinator TwoPointXo [Vec;2]", |r, f| { let a: Vec<u8> = (0..sz(f, 4)).map(|i| ((f >> (i % 60)) & 3) as u8).collect(); let b: Vec<u8> = a.iter().map(|x| x + 10).collect(); format!("{:?}", TwoPointXo.recombine([a, b], r).map_err(|e| e.to_string())) }),
+        ("recombinator TwoPointXo (Vec,Vec)", |r, f| { let a: Vec<u8> = (0..sz(f, 4)).map(|i| ((f >> (i % 60)) & 3) as u8).collect(); let b: Vec<u8> = a.iter().map(|x| x + 10).collect(); format!("{:?}", TwoPointXo.recombine((a, b), r).map_err(|e| e.to_string())) }),
+        ("recombinator TwoPointXo [Bitstring;2]", |r, f| { let a = Bitstring { bits: (0..sz(f, 4)).map(|i| (f >> (i % 64)) & 1 == 1).collect() }; let b = Bitstring { bits: a.bits.iter().map(|x| !x).collect() }; format!("{:?}", TwoPointXo.recombine([a, b], r).map_err(|e| e.to_string())) }),
+        ("recombinator TwoPointXo (Bitstring,Bitstring)", |r, f| { let a = Bitstring { bits: (0..sz(f, 4)).map(|i| (f >> (i % 64)) & 1 == 1).collect() }; let b = Bitstring { bits: a.bits.iter().map(|x| !x).collect() }; format!("{:?}", TwoPointXo.recombine((a, b), r).map_err(|e| e.to_string())) }),
+        ("recombinator UniformXo [Vec;2]", |r, f| { let a: Vec<u8> = (0..sz(f, 4)).map(|i| ((f >> (i % 60)) & 3) as u8).collect(); let b: Vec<u8> = a.iter().map(|x| x + 10).collect(); format!("{:?}", UniformXo.recombine([a, b], r).map_err(|e| e.to_string())) }),
+        ("recombinator UniformXo (Vec,Vec)", |r, f| { let a: Vec<u8> = (0..sz(f, 4)).map(|i| ((f >> (i % 60)) & 3) as u8).collect(); let b: Vec<u8> = a.iter().map(|x| x + 10).collect(); format!("{:?}", UniformXo.recombine((a, b), r).map_err(|e| e.to_string())) }),
+        ("recombinator UniformXo [Bitstring;2]", |r, f| { let a = Bitstring { bits: (0..sz(f, 4)).map(|i| (f >> (i % 64)) & 1 == 1).collect() }; let b = Bitstring { bits: a.bits.iter().map(|x| !x).collect() }; format!("{:?}", UniformXo.recombine([a, b], r).map_err(|e| e.to_string())) }),
+        ("recombinator UniformXo (Bitstring,Bitstring)", |r, f| { let a = Bitstring { bits: (0..sz(f, 4)).map(|i| (f >> (i % 64)) & 1 == 1).collect() }; let b = Bitstring { bits: a.bits.iter().map(|x| !x).collect() }; format!("{:?}", UniformXo.recombine((a, b), r).map_err(|e| e.to_string())) }),
+        ("generator Bitstring::random", |r, f| format!("{}", Bitstring::random(sz(f, 7), r))),
+        ("generator Bitstring::random_with_probability", |r, f| format!("{}", Bitstring::random_with_probability(sz(f, 8), 0.3, r))),
+        ("generator BoolGenerator collection", |r, f| { let b: Bitstring = BoolGenerator::new(0.7).into_collection_generator(sz(f, 9)).sample(r); format!("{b}") }),
+        ("generator collection Vec<u32>", |r, f| { let v: Vec<u32> = StandardUniform.into_collection_generator(sz(f, 10)).sample(r); format!("{v:?}") }),
+        ("generator OneOfCloning", |r, f| { let d = (0..=sz(f, 11)).map(|i| (i % 251) as u8).collect::<Vec<u8>>().into_distribution().unwrap(); format!("{:?}", (0..8).map(|_| d.sample(r)).collect::<Vec<u8>>()) }),
+        ("generator ChooseCloning", |r, f| { let v: Vec<u8> = (0..=sz(f, 12)).map(|i| (i % 251) as u8).collect(); let d = ToDistribution::<u8>::to_distribution(&v).unwrap(); format!("{:?}", (0..8).map(|_| d.sample(r)).collect::<Vec<u8>>()) }),
+        ("generator Choose (borrowing)", |r, f| { let v: Vec<u8> = (0..=sz(f, 13)).map(|i| (i % 251) as u8).collect(); let d = ToDistribution::<&u8>::to_distribution(&v).unwrap(); format!("{:?}", (0..8).map(|_| *d.sample(r)).collect::<Vec<u8>>()) }),
         ("generator uniform_distribution_of!", |r, _| { let d = uniform_distribution_of![<i64> 1i32, 2i32, 3i32]; format!("{:?}", (0..8).map(|_| d.sample(r)).collect::<Vec<i64>>()) }),
-        ("generator GeneGenerator", |r, _| { let gg = instr_pool().into_distribution().unwrap().into_gene_generator(); format!("{}", (0..12).map(|_| { let g: PushGene = gg.sample(r); g.to_string() }).collect::<Vec<_>>().join(" ")) }),
-        ("generator Plushy collection", |r, _| { let gg = instr_pool().into_distribution().unwrap().into_gene_generator_with_close_probability(0.2); let p: Plushy = gg.into_collection_generator(15).sample(r); format!("{p}") }),
-        ("generator IndividualGenerator population", |r, _| {
-            let ig = IndividualGenerator::new(StandardUniform.into_collection_generator(8), FnScorer(|g: &Vec<bool>| g.iter().filter(|b| **b).count()));
-            let pop: Vec<EcIndividual<Vec<bool>, usize>> = ig.into_collection_generator(5).sample(r);
+        ("generator GeneGenerator", |r, f| { let _ = f; let gg = instr_pool().into_distribution().unwrap().into_gene_generator(); format!("{}", (0..12).map(|_| { let g: PushGene = gg.sample(r); g.to_string() }).collect::<Vec<_>>().join(" ")) }),
+        ("generator Plushy collection", |r, f| { let gg = instr_pool().into_distribution().unwrap().into_gene_generator_with_close_probability(0.2); let p: Plushy = gg.into_collection_generator(sz(f, 14)).sample(r); format!("{p}") }),
+        ("generator IndividualGenerator population", |r, f| {
+            let ig = IndividualGenerator::new(StandardUniform.into_collection_generator(sz(f, 15)), FnScorer(|g: &Vec<bool>| g.iter().filter(|b| **b).count()));
+            let pop: Vec<EcIndividual<Vec<bool>, usize>> = ig.into_collection_generator(sz(f, 16) % 40).sample(r);
             format!("{pop:?}")
         }),
     ]
@@ -186,7 +202,15 @@ fn registry_checks(seed: u64, seeds_per_entry: usize, only: usize, rep: &mut Rep
             sc.spawn(|| seeds.iter().map(|s| run_entry(e, *s, mix(*s, 77))).collect::<Vec<_>>()).join()
         })
         .unwrap_or_default();
+        // third runs: the same calls on the first thread again, but in reverse order, i.e. after a
+        // different call history (other seeds, other input sizes): anything carried from call to
+        // call (thread-local scratch buffers, caches, counters) now differs
+        let mut thirds: Vec<_> = seeds.iter().rev().map(|s| run_entry(e, *s, mix(*s, 77))).collect();
+        thirds.reverse();
         for (k, s) in seeds.iter().copied().enumerate() {
+            if firsts[k] != thirds[k] {
+                rep.violation(format!("C16/{}/state-carried-between-calls", e.0), || json!({"operation": e.0, "seed": s, "first_run": format!("{:?}", firsts[k]).chars().take(400).collect::<String>(), "same_call_after_another_history": format!("{:?}", thirds[k]).chars().take(400).collect::<String>()}));
+            }
             let a = firsts[k].clone();
             let b = seconds.get(k).cloned().unwrap_or_else(|| Err("second run missing (thread panicked)".into()));
             rep.eval();
@@ -194,7 +218,7 @@ fn registry_checks(seed: u64, seeds_per_entry: usize, only: usize, rep: &mut Rep
             match (&a, &b) {
                 (Ok((ra, fa)), Ok((rb, fb))) => {
                     if ra != rb {
-                        rep.violation(format!("C16/{}/result-differs", e.0), || json!({"operation": e.0, "seed": s, "run_1": ra, "run_2_other_thread": rb}));
+                        rep.violation(format!("C16/{}/result-differs", e.0), || json!({"operation": e.0, "seed": s, "run_1": ra.chars().take(600).collect::<String>(), "run_2_other_thread": rb.chars().take(600).collect::<String>(), "first_difference_at_char": ra.chars().zip(rb.chars()).position(|(x, y)| x != y)}));
                     } else if fa != fb {
                         rep.violation(format!("C16/{}/generator-state-differs", e.0), || json!({"operation": e.0, "seed": s, "fingerprint_1": format!("{fa:?}"), "fingerprint_2": format!("{fb:?}")}));
                     }
@@ -394,7 +418,7 @@ pub fn run(args: &Args) -> i32 {
     rep.finish(
         args,
         "exploration",
-        "a registry of 39 stochastic operations (all selectors and weighted combinations, composed pipelines, GenomeScorer, bit-flip and UMAD mutators, both crossovers on all genome flavours, Bitstring / Bool / collection generators, OneOfCloning / ChooseCloning / Choose / uniform_distribution_of!, GeneGenerator, Plushy and individual generators) x the stated number of seeds, each run twice (second run on another thread, fixtures rebuilt); interleaved call histories on shared operator values; random Push programs with up to 5 named inputs run under every declaration order. distinct_nontrivial = distinct (operation, seed) pairs + distinct programs",
+        "a registry of 39 stochastic operations (all selectors and weighted combinations, composed pipelines, GenomeScorer, bit-flip and UMAD mutators, both crossovers on all genome flavours, Bitstring / Bool / collection generators, OneOfCloning / ChooseCloning / Choose / uniform_distribution_of!, GeneGenerator, Plushy and individual generators) x the stated number of seeds with input / output sizes 0..2049 derived from the seed (word and block boundaries included), each run three times (second run on another thread, third run after a reversed call history, fixtures rebuilt); interleaved call histories on shared operator values; random Push programs with up to 5 named inputs run under every declaration order. distinct_nontrivial = distinct (operation, seed) pairs + distinct programs",
         false,
         &[
             "a hidden source of randomness would have to coincide between two runs on two threads to go unnoticed",
